@@ -86,6 +86,16 @@ fn shim_str_split_once_char<'a>(s: &'a str, c: char) -> (r: Option<(&'a str, &'a
     // split at the FIRST occurrence: the left part does not contain the delimiter
     ensures match r { Some((a, b)) => sb(s) == sb(a) + seq![c as u8] + sb(b) && !sb(a).contains(c as u8), None => !sb(s).contains(c as u8) },
 { s.split_once(c) }
+// `s.split_once(pat)` with a string pattern: split at the first occurrence
+#[verifier::external_body]
+fn shim_str_split_once_str<'a>(s: &'a str, pat: &str) -> (r: Option<(&'a str, &'a str)>)
+    requires sb(pat).len() > 0,
+    ensures match (r, first_occ(sb(s), sb(pat))) {
+        (Some((a, b)), Some(i)) => sb(a) == sb(s).subrange(0, i) && sb(b) == sb(s).subrange(i + sb(pat).len(), sb(s).len() as int),
+        (None, None) => true,
+        _ => false,
+    },
+{ s.split_once(pat) }
 #[verifier::external_body]
 fn shim_str_rsplit_once_char<'a>(s: &'a str, c: char) -> (r: Option<(&'a str, &'a str)>)
     requires is_ascii_char(c),
